@@ -1,4 +1,4 @@
-package checks
+package c17
 
 import (
 	"fmt"
@@ -10,8 +10,6 @@ import (
 	lsp "github.com/a-h/templ/lsp/protocol"
 	"verif/core"
 )
-
-func init() { Registry["C17"] = runC17 }
 
 // c17Edit is one LSP content change. Nil Range = full replace.
 type c17Edit struct {
@@ -168,7 +166,8 @@ func c17Reduce(cs c17Case) c17Case {
 	return cs
 }
 
-func runC17(c *core.Ctx) {
+// Run is the C17 check.
+func Run(c *core.Ctx) {
 	c.Rule = "cases = (initial document, sequence of LSP content changes, API) checked after every step against a byte-splice reference; exhaustive part: every document of length<=6 over {a,LF} x every ordered (start,end) with lines 0..L+1 and characters 0..maxlen+1 x 7 replacement texts + full replace, through Document.Apply and DocumentContents.Apply; non-trivial = the change carries a range (not a whole-document replacement); distinct by (doc,range,text,api)"
 	c.Assume("positions are byte offsets within a line (the server negotiates no position encoding); documents are ASCII as the property's alphabet {letter, newline} states")
 	c.Assume("ranges satisfy start<=end as LSP requires of clients")
